@@ -9,6 +9,9 @@
    A "star" model: `Next` picks one case (sector count, integer angle / omni gain), computes the exact
    rational gain in dB and emits it; the laws of the property are invariants evaluated on every case:
    symmetric, maximal at boresight, floored at G - Am (and the floor is reached), omni constant.
+   The gain is a FUNCTION of (sector count, angle): the replay issues the angles as one float64 array, requires
+   the caller's array to be unchanged by the call, re-uses it (same angles again, negated angles) and requires equal
+   results - a query has no effect on its arguments or on later queries.
    DevNoFloor: the pattern without the min(., Am) - must be refuted by `Floored`.              *)
 EXTENDS Integers, Sequences, TLC, Emit, PathLossParams
 
